@@ -206,29 +206,81 @@ def tlc_cases(meta, prefix="CASE"):
 
 # ----------------------------------------------------------------------------------------- harness
 
+class CodeCrashed(Exception):
+    """the code under test aborted the harness process or did not return on one identified case: a verdict, not a
+    tool error (a panic / crash / hang of the code under test is data)"""
+
+    def __init__(self, case, reason):
+        Exception.__init__(self, reason)
+        self.case, self.reason = case, reason
+
+
+def write_crash_evidence(prop, tier, e, replay_path):
+    """evidence of a run that ended with the code under test crashing / hanging on an identified case"""
+    level = "exploration" if prop == "C11" else "model_checking"
+    ev = {"property_id": prop, "tier": tier, "seed": seed(), "level": level,
+          "coverage": {"evaluations": 1, "distinct_nontrivial": 1,
+                       "rule": "the run was cut short: the code under test aborted the process or did not return on the case shown in samples",
+                       "samples": [e.case], "states": 0, "transitions": 0, "traces_validated_against_impl": 1, "exhaustive": False},
+          "assumptions": [], "wall_s": 0.0, "violations": 1, "crash": e.reason, "replay": replay_path}
+    os.makedirs(EVID, exist_ok=True)
+    json.dump(ev, open(os.path.join(EVID, prop + ".json"), "w"), indent=1, default=str)
+
+
+HARNESS_TIMEOUT = int(os.environ.get("VERIF_HARNESS_TIMEOUT", "1500"))   # per batch
+SINGLE_TIMEOUT = 120                                                      # one case alone
+
+
+def _harness_once(buf, threads, timeout, tag):
+    path = os.path.join(BUILD, "tmp", "cases-%d-%s.ndjson" % (os.getpid(), tag))
+    prog = path + ".progress"
+    with open(path, "w") as fh:
+        for c in buf:
+            fh.write(json.dumps(c, separators=(",", ":")))
+            fh.write("\n")
+    if os.path.exists(prog):
+        os.unlink(prog)
+    cmd = ["timeout", "-s", "KILL", str(timeout), HARNESS_BIN, "run", path]
+    if threads:
+        cmd += ["--threads", str(threads)]
+    p = subprocess.run(cmd, env=scrubbed_env({"PLSVERIF_PROGRESS": prog}), stdout=subprocess.PIPE, stderr=subprocess.PIPE)
+    os.unlink(path)
+    started, ended = [], set()
+    if os.path.exists(prog):
+        for l in open(prog):
+            k, _, v = l.strip().partition(" ")
+            (started.append(v) if k == "S" else ended.add(v))
+        os.unlink(prog)
+    outs = p.stdout.decode().splitlines()
+    ok = p.returncode == 0 and len(outs) == len(buf)
+    return ok, p, outs, [x for x in started if x not in ended]
+
+
 def run_harness(cases, threads=None, chunk=20000):
-    """cases: iterable of dicts {"id":..,"ops":[..]} -> yields result dicts in order"""
+    """cases: iterable of dicts {"id":..,"ops":[..]} -> yields result dicts in order.
+    If the harness process dies or does not finish, the case responsible is identified (started but not ended, then
+    confirmed by running it alone) and CodeCrashed is raised -- check.py turns it into a VIOLATION with that case as replay."""
     os.makedirs(os.path.join(BUILD, "tmp"), exist_ok=True)
     buf = []
     n = 0
 
     def flush(buf):
-        path = os.path.join(BUILD, "tmp", "cases-%d-%d.ndjson" % (os.getpid(), n))
-        with open(path, "w") as fh:
-            for c in buf:
-                fh.write(json.dumps(c, separators=(",", ":")))
-                fh.write("\n")
-        cmd = [HARNESS_BIN, "run", path]
-        if threads:
-            cmd += ["--threads", str(threads)]
-        p = subprocess.run(cmd, env=scrubbed_env(), stdout=subprocess.PIPE, stderr=subprocess.PIPE)
-        os.unlink(path)
-        if p.returncode != 0:
-            raise ToolError("harness run failed rc=%d: %s" % (p.returncode, p.stderr.decode()[-2000:]))
-        outs = p.stdout.decode().splitlines()
-        if len(outs) != len(buf):
-            raise ToolError("harness returned %d results for %d cases" % (len(outs), len(buf)))
-        return [json.loads(o) for o in outs]
+        ok, p, outs, unfinished = _harness_once(buf, threads, HARNESS_TIMEOUT, str(n))
+        if ok:
+            return [json.loads(o) for o in outs]
+        why = "killed by the %d s watchdog" % HARNESS_TIMEOUT if p.returncode in (124, 137, -9) else \
+            "exit status %s: %s" % (p.returncode, p.stderr.decode()[-600:])
+        by_id = {json.dumps(c["id"]): c for c in buf}
+        for sid in unfinished[:8]:
+            c = by_id.get(sid)
+            if c is None:
+                continue
+            ok1, p1, _, _ = _harness_once([c], 1, SINGLE_TIMEOUT, "single")
+            if not ok1:
+                why1 = "did not return within %d s" % SINGLE_TIMEOUT if p1.returncode in (124, 137, -9) else \
+                    "aborted the process (status %s): %s" % (p1.returncode, p1.stderr.decode()[-600:])
+                raise CodeCrashed(c, "the code under test %s" % why1)
+        raise ToolError("harness run failed (%s) and no single case reproduces it; unfinished: %r" % (why, unfinished[:8]))
 
     for c in cases:
         buf.append(c)
